@@ -18,9 +18,12 @@ type LockID interface{}
 type Locks struct {
 	fn  *ssa.Function
 	in  map[*ssa.BasicBlock]map[LockID]bool
-	p   *Prog
-	all map[LockID]bool
+	p     *Prog
+	all   map[LockID]bool
+	entry map[LockID]bool
 }
+
+var lockDepth int
 
 func lockTarget(v ssa.Value) LockID {
 	switch a := v.(type) {
@@ -82,7 +85,39 @@ func (p *Prog) LockAnalysis(fn *ssa.Function) *Locks {
 		l.in[b] = top()
 		out[b] = top()
 	}
+	// a transparent helper starts with what every caller holds at the call
+	entry := map[LockID]bool{}
+	if p.Transparent(fn) && lockDepth < 4 {
+		lockDepth++
+		sites := p.StaticCallSites(fn)
+		for i, cs := range sites {
+			held := p.LockAnalysis(cs.Parent()).Held(cs)
+			if i == 0 {
+				for k := range held {
+					entry[k] = true
+					l.all[k] = true
+				}
+			} else {
+				for k := range entry {
+					if !held[k] {
+						delete(entry, k)
+					}
+				}
+			}
+		}
+		lockDepth--
+	}
+	for _, b := range fn.Blocks {
+		for k := range entry {
+			l.in[b][k] = true
+			out[b][k] = true
+		}
+	}
+	l.entry = entry
 	l.in[fn.Blocks[0]] = map[LockID]bool{}
+	for k := range entry {
+		l.in[fn.Blocks[0]][k] = true
+	}
 	changed := true
 	for changed {
 		changed = false
@@ -90,6 +125,9 @@ func (p *Prog) LockAnalysis(fn *ssa.Function) *Locks {
 			var inSet map[LockID]bool
 			if b == fn.Blocks[0] {
 				inSet = map[LockID]bool{}
+				for k := range entry {
+					inSet[k] = true
+				}
 			} else if len(b.Preds) == 0 {
 				inSet = map[LockID]bool{} // recover block etc.
 			} else {
@@ -163,7 +201,7 @@ func (l *Locks) Held(in ssa.Instruction) map[LockID]bool {
 // exit), ignoring locks released by a deferred unlock.
 func (l *Locks) HeldAtExit() map[LockID][]ssa.Instruction {
 	deferred := map[LockID]bool{}
-	Instrs(l.fn, func(in ssa.Instruction) {
+	InstrsShallow(l.fn, func(in ssa.Instruction) {
 		d, ok := in.(*ssa.Defer)
 		if !ok {
 			return
@@ -178,7 +216,7 @@ func (l *Locks) HeldAtExit() map[LockID][]ssa.Instruction {
 		}
 	})
 	out := map[LockID][]ssa.Instruction{}
-	Instrs(l.fn, func(in ssa.Instruction) {
+	InstrsShallow(l.fn, func(in ssa.Instruction) {
 		if _, ok := in.(*ssa.Return); !ok {
 			return
 		}
@@ -227,11 +265,11 @@ func (p *Prog) FieldAccesses(f *types.Var) []FieldAccess {
 // GlobalAccesses enumerates loads and stores of a package variable.
 func (p *Prog) GlobalAccesses(g *ssa.Global) []ssa.Instruction {
 	var out []ssa.Instruction
-	for _, fn := range p.ModFuncs {
+	for _, fn := range p.AllModFuncs() {
 		if fn.Name() == "init" {
 			continue
 		}
-		Instrs(fn, func(in ssa.Instruction) {
+		InstrsShallow(fn, func(in ssa.Instruction) {
 			for _, op := range in.Operands(nil) {
 				if *op == ssa.Value(g) {
 					out = append(out, in)
